@@ -105,6 +105,9 @@ func runC06(c *Ctx) {
 				multicast, mcTested = a.Pos, true
 			}
 			x, y, op, ok := effCmp(a)
+			if ok && y.Op == an.OpCall && y.Fn != nil && y.Fn.String() == "time.Since" {
+				x, y, op = y, x, flip(op) // minDelay > time.Since(last)
+			}
 			if ok && x.Op == an.OpCall && x.Fn != nil && x.Fn.String() == "time.Since" {
 				wTested = true
 				if y.IsField("minDelayBetweenRAs") && (op == token.LSS || op == token.GEQ) {
